@@ -27,6 +27,7 @@ type Policy struct {
 	VoidElems   map[string]bool
 	LinkRel     map[string]bool
 	Problems    []string
+	prog        *Program
 }
 
 func (pl *Policy) SC(v int64) string {
@@ -45,7 +46,7 @@ func loadPolicy(p *Program) (*Policy, error) {
 	if scObj == nil {
 		return nil, fmt.Errorf("anchor not found: type sanitizationContext")
 	}
-	pl := &Policy{SCNames: ConstNames(tpk, scObj.Type()), SCByName: map[string]int64{}, Info: map[int64]scInfo{}, Funcs: map[string]*ssa.Function{},
+	pl := &Policy{prog: p, SCNames: ConstNames(tpk, scObj.Type()), SCByName: map[string]int64{}, Info: map[int64]scInfo{}, Funcs: map[string]*ssa.Function{},
 		ElemAttr: map[string]map[string]int64{}, GlobalAttr: map[string]int64{}, ElemContent: map[string]int64{}}
 	for v, n := range pl.SCNames {
 		pl.SCByName[n] = v
